@@ -140,6 +140,30 @@ for name in names:
                     check(topo, eq, key, junction)
                 except Exception as e:
                     wit.append({'key': key, 'problems': [f'{type(e).__name__}: {e}']})
+# a Raman span whose connector losses are left to the library defaults (its booster carries a delta_p: see DESIGN.md O1)
+for con_in, con_out in ((None, 0.5), (0.35, 0.5)):
+    cases += 1
+    key = f'raman-span-connectors:{con_in}:{con_out}'
+    try:
+        eq = equipment()
+        eq['Span']['default'].EOL = 0.3
+        topo = mesh(['A', 'B'], [('A', 'B')], spans={('A', 'B'): [80]})
+        for e in topo['elements']:
+            if e['uid'] == 'fiber (A -> B)-0':
+                e['type'] = 'RamanFiber'
+                e['params'].update({'con_in': con_in, 'con_out': con_out})
+                e['operational'] = {'temperature': 283, 'raman_pumps': [{'power': 0.2, 'frequency': 205e12, 'propagation_direction': 'counterprop'}]}
+        topo['elements'].append(edfa('booster A', None, {'delta_p': 0.0, 'gain_target': None, 'tilt_target': 0, 'out_voa': None}))
+        topo['connections'] = [c for c in topo['connections'] if not (c['from_node'] == 'roadm A' and c['to_node'] == 'fiber (A -> B)-0')] + \
+            [{'from_node': 'roadm A', 'to_node': 'booster A'}, {'from_node': 'booster A', 'to_node': 'fiber (A -> B)-0'}]
+        net, eq = design(topo, eq)
+        rf = next(n for n in net.nodes() if isinstance(n, RamanFiber))
+        want_in = con_in if con_in is not None else eq['Span']['default'].con_in
+        want_out = con_out + 0.3
+        if rf.params.con_in is None or abs(rf.params.con_in - want_in) > 1e-9 or abs(rf.params.con_out - want_out) > 1e-9:
+            wit.append({'key': key, 'problems': [f'RamanFiber connector losses ({rf.params.con_in}, {rf.params.con_out}), expected ({want_in}, {want_out})']})
+    except Exception as e:
+        wit.append({'key': key, 'problems': [f'{type(e).__name__}: {e}'[:300]]})
 # multi-band auto-design: ROADMs designed for C+L get multi-band amplifiers everywhere, each band with its own gain / target
 CL = [{'f_min': 191.3e12, 'f_max': 196.0e12, 'spacing': 50e9}, {'f_min': 186.6e12, 'f_max': 190.0e12, 'spacing': 50e9}]
 for name in (['line2', 'ring3'] if a.tier == 'quick' else ['line2', 'line3', 'ring3', 'mesh4']):
